@@ -217,8 +217,11 @@ end TV
 /-! ### `int(str)` for ASCII text.  `none` = "not modelled" (non-ASCII input: CPython also accepts
 Unicode digits and spaces there); the correspondence skips those cases. -/
 
+/-- what `int()` strips from an ASCII string: C `isspace` (space, \t \n \v \f \r).  The separators
+    U+001C..U+001F are whitespace for `str.isspace()` but are NOT stripped by `int()` when the whole
+    string is ASCII (CPython only maps Unicode spaces to ' ' on its non-ASCII path). -/
 def isAsciiSpace (c : Nat) : Bool :=
-  c == 32 || (9 ≤ c && c ≤ 13) || (28 ≤ c && c ≤ 31)
+  c == 32 || (9 ≤ c && c ≤ 13)
 
 def isDigit (c : Nat) : Bool := 48 ≤ c && c ≤ 57
 
